@@ -178,6 +178,21 @@ add("C06", True, "fault_enumeration",
     "network itself. Fault plans are sampled, not enumerated exhaustively.",
     "DESIGN.md section 5, C06")
 
+add("C07", True, "fault_enumeration",
+    "Hypothesis-generated memory operations x reply fault plans against a "
+    "byte-array memory model of the machine",
+    "Reads, writes, fills, struct-field, per-core-field and across-link "
+    "accesses with every alignment of start and end, lengths up to 5 "
+    "buffers, advertised buffers 16-512 and windows 1-8 run through "
+    "MachineController / SCPConnection against a simulated SC&MP whose "
+    "memory is the reference: returned bytes, written bytes and a full "
+    "before/after comparison of every chip decide byte-exactness, the model "
+    "asserts buffer and access-type rules per command; a second clause adds "
+    "lost/delayed/duplicated replies and retryable codes.",
+    "Trusted: vf/sim/scamp.py, vf/oracle/svstruct.py. Requests are not "
+    "duplicated by the network; fatal codes are outside this property.",
+    "DESIGN.md section 5, C07")
+
 
 def main():
     checks = []
